@@ -100,8 +100,8 @@ Proof.
   assert (W1 : t_wrote_header (snd (bh_clen a t0)) = t_wrote_header t0).
   { unfold bh_clen. destruct (ac_cl a), (t_clen t0); try reflexivity. destruct (has_body t0); reflexivity. }
   destruct (bh_clen a t0) as [clh t1]. cbn [snd] in W1.
-  assert (W2 : forall conn t, t_wrote_header (bh_conn cap lower conn clh t) = t_wrote_header t).
-  { intros conn t2. unfold bh_conn.
+  assert (W2 : forall conn fc t, t_wrote_header (bh_conn cap lower conn fc clh t) = t_wrote_header t).
+  { intros conn fc t2. unfold bh_conn.
     repeat match goal with
            | |- context [if ?b then _ else _] => destruct b
            end; rewrite ?scof_wrote; cbn [t_wrote_header set_chunked set_rh]; rewrite ?scof_wrote; reflexivity. }
